@@ -367,23 +367,26 @@ def evaluate_cases(P: Prop, cases, model: Model):
         rec = {"case": c, "impl": io, "disagree": None, "oracle": None, "modelled": n > 0}
         if n > 0:
             resp = answers[start : start + n] if many else answers[start]
+            flat = resp if isinstance(resp, list) else [resp]
+            for a in flat:
+                if isinstance(a, dict) and str(a.get("proto_err", "")).startswith(("driver died", "driver unavailable", "unparsable model output")):
+                    rec["harness_error"] = "model driver failed: %s" % a["proto_err"][:200]
             mv = _safe(P.model_view, c, resp, io)
             iv = _safe(P.impl_view, c, io)
             rec["model"] = mv
             if not P.equal(iv, mv):
                 rec["disagree"] = {"impl": iv, "model": mv}
-        if isinstance(io, dict) and "exc" in io:
+        if isinstance(io, dict) and "exc" in io and "tb" in io:
+            # run_impl itself raised: an UNEXPECTED exception of the implementation (a property module that expects
+            # an exception maps it to an error enum inside run_impl).  Always reported; never left to the oracle.
             rec["oracle"] = "implementation raised %s: %s" % (io["exc"], io.get("msg", ""))
-            # a property module that expects exceptions maps them itself in run_impl
-            o = _safe(P.oracle, c, io)
-            if o is None:
-                rec["oracle"] = None
-            elif isinstance(o, str):
-                rec["oracle"] = o
+            if io["exc"] in ("OSError", "TimeoutExpired", "BrokenPipeError", "MemoryError"):
+                rec["harness_error"] = rec["oracle"]  # infrastructure, not the code under test
         else:
             o = _safe(P.oracle, c, io)
-            if isinstance(o, dict) and "exc" in o:
-                o = "oracle crashed: %s %s" % (o["exc"], o.get("msg"))
+            if isinstance(o, dict) and "exc" in o and "tb" in o:
+                rec["harness_error"] = "oracle crashed: %s %s %s" % (o["exc"], o.get("msg"), o.get("tb", "")[-300:])
+                o = None
             rec["oracle"] = o
         recs.append(rec)
     return recs
@@ -414,10 +417,13 @@ def _chunk_worker(args):
         for f in feats:
             stats["features"][f] = stats["features"].get(f, 0) + 1
         stats["modelled"] += 1 if r["modelled"] else 0
+        if r.get("harness_error"):
+            stats.setdefault("harness_errors", []).append(r["harness_error"])
+            continue
         if r["disagree"] is not None or r["oracle"] is not None:
             bad.append(r)
     samples = [r["case"] for r in recs[:2]]
-    return stats, bad[:50], samples
+    return stats, bad[:400], samples
 
 
 def load_prop(prop) -> Prop:
@@ -518,8 +524,10 @@ def run_check(prop, tier="quick", seed=0, replay=None):
         for f in sorted(cdir.glob("*.json")):
             try:
                 corpus_cases.append(json.loads(f.read_text())["case"])
-            except Exception:
-                pass
+            except Exception as e:  # a corpus file that cannot be read is a harness error, never skipped silently
+                print(f"harness error: corpus file {f} unreadable: {type(e).__name__}: {e}", file=sys.stderr)
+                log.close()
+                return 2
     if replay:
         rp = json.loads(Path(replay).read_text())
         corpus_cases = [rp["case"]] if "case" in rp else []
@@ -539,7 +547,7 @@ def run_check(prop, tier="quick", seed=0, replay=None):
     else:
         ex = []
     total = {"n": 0, "keys": set(), "nontrivial_keys": set(), "features": {}, "modelled": 0}
-    bad_all, samples = [], []
+    bad_all, samples, harness_errors = [], [], []
     if jobs:
         nproc = min(16, len(jobs)) if len(jobs) > 1 else 1
         if nproc > 1:
@@ -556,6 +564,7 @@ def run_check(prop, tier="quick", seed=0, replay=None):
             for k, v in stats["features"].items():
                 total["features"][k] = total["features"].get(k, 0) + v
             bad_all.extend(bad)
+            harness_errors.extend(stats.get("harness_errors", []))
             if len(samples) < 3:
                 samples.extend(smp[:1])
 
@@ -579,6 +588,25 @@ def run_check(prop, tier="quick", seed=0, replay=None):
                 {"case": f["case"], "impl": f.get("impl"), "disagree": f.get("disagree"), "oracle": f.get("why"), "extra": True}
             )
 
+    main_n = total["n"] - (extra_info.get("evaluations", 0) if extra_info else 0)
+    main_modelled = total["modelled"] - (int(extra_info.get("modelled", 0)) if extra_info else 0)
+    if harness_errors:
+        for h in harness_errors[:5]:
+            print("harness error: " + h, file=sys.stderr)
+        log.close()
+        return 2
+    floor = getattr(P, "min_modelled_fraction", 0.5)
+    if not replay and main_n >= 20 and b["driver_ok"] and main_modelled < floor * main_n:
+        # the correspondence silently switched off (model_request returning None / raising for most cases)
+        print(f"harness error: only {main_modelled} of {main_n} generated cases were compared with the model "
+              f"(floor {floor:.0%}, P.min_modelled_fraction)", file=sys.stderr)
+        log.close()
+        return 2
+    if total["features"].get("features-crashed", 0) > 0.05 * max(1, main_n):
+        print("harness error: P.features / P.nontrivial raised on more than 5% of the cases", file=sys.stderr)
+        log.close()
+        return 2
+
     # ---- 4. classify -------------------------------------------------------------------
     seen_known = {}
     fresh_oracle, fresh_disagree = [], []
@@ -599,7 +627,12 @@ def run_check(prop, tier="quick", seed=0, replay=None):
         if k.get("property") == prop and k.get("status") == "known" and k["id"] not in seen_known and "example" in k:
             r = evaluate_cases(P, [k["example"]], model)[0]
             if r["oracle"] is not None or r["disagree"] is not None:
-                known_lines.append(f"KNOWN-FINDING: property={prop} {k['id']}: {k.get('text', '')[:160]}")
+                if classify(P, prop, r, known) == k["id"]:
+                    known_lines.append(f"KNOWN-FINDING: property={prop} {k['id']}: {k.get('text', '')[:160]}")
+                elif r.get("oracle") is not None:  # the stored example now fails in ANOTHER way: a fresh violation
+                    fresh_oracle.append(r)
+                else:
+                    fresh_disagree.append(r)
 
     def dedup(rs):
         seen, out = set(), []
@@ -614,7 +647,10 @@ def run_check(prop, tier="quick", seed=0, replay=None):
     reported = 0
     for r in fresh_oracle[:3]:
         if not r.get("extra"):
+            r0 = r
             r = shrink_case(P, r, model, "oracle")
+            if classify(P, prop, r, known) is not None:  # shrinking drifted into a listed finding: keep the original
+                r = r0
         path = write_replay(
             prop,
             {
@@ -635,7 +671,10 @@ def run_check(prop, tier="quick", seed=0, replay=None):
     if not fresh_oracle:
         # correspondence broken but the oracle sees no failing input
         for r in fresh_disagree[:2]:
+            r0 = r
             r = shrink_case(P, r, model, "disagree")
+            if classify(P, prop, r, known) is not None:
+                r = r0
             if r.get("oracle") is not None:
                 kind, nf = "failing-input", False
             else:
